@@ -263,6 +263,18 @@ func (f *fields) array() []value {
 	return f.a
 }
 
+// sortedKeys returns the names of a dictionary in sorted order. Loops that can
+// fail visit the settings in this order, so that the error reported for an
+// input with more than one fault does not depend on map iteration order.
+func sortedKeys(dict map[string]value) []string {
+	keys := make([]string, 0, len(dict))
+	for k := range dict {
+		keys = append(keys, k)
+	}
+	sort.Strings(keys)
+	return keys
+}
+
 func (f *fields) del(name string) bool {
 	_, exists := f.d[name]
 	if exists {
